@@ -29,6 +29,14 @@ CHECKS["C20"] = ("exploration",
     "zero); iteration must visit exactly the not-destroyed objects.",
     "trusts ASan runtime; libqb's random() replaced by seeded PRNG; single-threaded", "DESIGN.md C20")
 
+CHECKS["C19"] = ("exploration",
+    "address/zero-init/pattern/disjointness oracle over generated index+grow histories; multi-thread stress under "
+    "ThreadSanitizer and ASan",
+    "Sequential histories are compared with a size model and an address table; concurrent index/grow from 2-8 "
+    "threads runs on TSan and ASan builds, so a data race or a use-after-free in the bin table is reported even "
+    "when it does not corrupt anything in that run. Interleavings are sampled, not enumerated.",
+    "trusts TSan/ASan runtimes; OS scheduling on 16 cores", "DESIGN.md C19")
+
 REASON_PENDING = "check not registered yet in this revision (implementation in progress, see DESIGN.md section 7)"
 
 
